@@ -555,7 +555,9 @@ struct Gen {
       if (!wild) for (auto& ch : a.src) if (ch == 0) ch = 'a';
       a.ch = (needle && len > 0 && rng.chance(1, 2)) ? static_cast<unsigned char>(cur[rng.below(len)]) : chr();
       if (!wild && a.ch == 0) a.ch = 'b';
-      const size_t slen = (sk == "selfit") ? len : a.src.size();
+      size_t slen = (sk == "selfit") ? len : a.src.size();
+      if (sk.compare(0, 3, "fs2") == 0) slen = std::min(slen, S2);            // the other FixedString cuts its source off
+      else if (sk.compare(0, 2, "fs") == 0) slen = std::min(slen, L);
       if (sk == "cstr_cnt") a.c2 = static_cast<long long>(rng.below(strlen(a.src.c_str()) + 1));   // never beyond the caller's block
       else if (sk == "cnt_ch") {
          a.c2 = rng.chance(1, 8) ? static_cast<long long>(L + 1 + rng.below(70)) : static_cast<long long>(rng.below(std::min<size_t>(L, 40) + 3));
